@@ -239,6 +239,8 @@ where
             .iter()
             .map(|evals| evals_inner_product(evals, &powers_x1))
             .collect::<Vec<_>>();
+        #[cfg(feature = "verif-hooks")]
+        verif_hooks::on_q_eval_sets(&powers_x1, &q_eval_sets);
 
         let f_com: E::G1 = transcript.read().map_err(|_| Error::SamplingError)?;
 
@@ -261,12 +263,17 @@ where
                 |acc_eval, ((points, evals), proof_eval)| {
                     let r_poly = lagrange_interpolate(points, evals);
                     let r_eval = eval_polynomial(&r_poly, x3);
+                    #[cfg(feature = "verif-hooks")]
+                    verif_hooks::on_r_eval(&r_eval);
                     // eval = (proof_eval - r_eval) / prod_i (x3 - point_i)
                     let den = points.iter().fold(E::Fr::ONE, |acc, point| acc * &(x3 - point));
                     let eval = (*proof_eval - &r_eval) * den.invert().unwrap();
                     acc_eval * &(x2) + &eval
                 },
             );
+
+        #[cfg(feature = "verif-hooks")]
+        verif_hooks::on_f_eval(&f_eval);
 
         let x4: E::Fr = transcript.squeeze_challenge();
 
@@ -299,6 +306,9 @@ where
 
             inner_product(&evals, powers)
         };
+
+        #[cfg(feature = "verif-hooks")]
+        verif_hooks::on_v(&v);
 
         let pi: E::G1 = transcript.read().map_err(|_| Error::SamplingError)?;
 
